@@ -60,13 +60,16 @@ def collide(rng, d):
     return gen_decl(rng)
 
 
-def rule_src(name, decls, cond, flags="", imports=()):
+def rule_src(name, decls, cond, flags="", imports=(), suffix=""):
+    """suffix: the strings are named s0<suffix>, s1<suffix> ... (names that EXTEND the plain ones)"""
     imp = "".join('import "%s" ' % m for m in imports)
     if not decls:
         return "%s%srule %s { condition: %s }" % (imp, flags, name, cond)
-    strings = " ".join(decl_yara("s%d" % i, d) for i, d in enumerate(decls))
+    strings = " ".join(decl_yara("s%d%s" % (i, suffix), d) for i, d in enumerate(decls))
+    if suffix:
+        cond = re.sub(r"([$#@!])s(\d)", lambda mm: mm.group(1) + "s" + mm.group(2) + suffix, cond)
     # every string must be referenced (boreal rejects unused strings): add always-false disjuncts
-    refs = "".join(" or #s%d < 0" % i for i in range(len(decls)))
+    refs = "".join(" or #s%d%s < 0" % (i, suffix) for i in range(len(decls)))
     return "%s%srule %s { strings: %s condition: (%s)%s }" % (imp, flags, name, strings, cond, refs)
 
 
@@ -275,6 +278,14 @@ class C12(Prop):
             m += rng.choice(pool)
             if rng.chance(1, 2):
                 m += rng.bytes(rng.range(0, 3), b" .aZ\x00")
+        if rng.chance(1, 6):
+            # byte literals longer than 64 bytes in the conditions of A and B: same length, same head and tail,
+            # different middle
+            head, tail = b"H" * rng.range(32, 40), b"T" * rng.range(32, 40)
+            mids = [b"midA" + rng.bytes(4, ALNUM), b"midB" + rng.bytes(4, ALNUM)]
+            for rs, mid in ((A, mids[0]), (B, mids[1])):
+                tgt = [r for r in rs if not r.get("global")][0]
+                tgt["cond"] = '"%s" contains "%s"' % ((head + mid + tail).decode(), mid.decode())
         params = {}
         if rng.chance(1, 4):
             # a lowered match limit: strings sharing an atom, one of them over the limit early in the input
@@ -298,6 +309,7 @@ class C12(Prop):
             ea = rng.choice(encodings(da) or [(bytes.fromhex(da["text"]), False)])[0][:48]
             m = m[:150] + b" " + ea
         case = {"A": A, "B": B, "nsA": nsA, "nsB": nsB, "order": order, "mem": bytes(m).hex(),
+                "b_suffix": rng.choice(["", "", "x", "_b", "0"]),     # B's string names extend A's ($s0x vs $s0)
                 "include_not_matched": rng.chance(2, 3),
                 "profile": rng.choice(["speed", "memory"]), "params": params}
         if rng.chance(1, 4):
@@ -340,7 +352,8 @@ class C12(Prop):
                 src = "rule %s { strings: %s condition: %s }" % (
                     r["name"], " ".join("$s%d = %s" % (j, rx) for j, rx in enumerate(r["raw"])), r["cond"])
             else:
-                src = rule_src(r["name"], r["decls"], r["cond"], rule_flags(r), r.get("imports", ()))
+                src = rule_src(r["name"], r["decls"], r["cond"], rule_flags(r), r.get("imports", ()),
+                               case.get("b_suffix", "") if side == "B" else "")
             out.append({"ns": case["nsA"] if side == "A" else case["nsB"], "src": src})
         return out
 
@@ -425,8 +438,9 @@ class C12(Prop):
             if not present:
                 continue
             strs = []
+            sfx = case.get("b_suffix", "") if side == "B" else ""
             for st in ur["strings"]:
-                mm = re.fullmatch(r"s(\d+)", st["name"])
+                mm = re.fullmatch(r"s(\d+)" + re.escape(sfx), st["name"])
                 strs.append("(%d, %s, %s)" % (int(mm.group(1)) if mm else 999, gbool(bool(st["xor"])),
                                               glist(g_smatch(x) for x in st["matches"])))
             reported.append(glist(strs))
